@@ -25,8 +25,13 @@ void mt_decode_engine(mt_case * c, mt_engine_cfg * e, int maxW) {
   e->W = 1 + (int)(b0 % (unsigned)maxW);
   e->tail_preempt = tails[b1 & 7];
   e->mode = (c->tier == 1 && b2 >= 224) ? MV_NOISE : MV_CONTROLLED;
-  e->burst_id = 0; e->burst_len = 0;
-  mt_hash_u((uint64_t)e->W | ((uint64_t)e->tail_preempt << 8) | ((uint64_t)e->mode << 20));
+  /* long windows: the pure status-polling loops of the library (no hook points inside) may poll in place for a
+     while before anybody else runs -- the schedule in which every other worker is slow for that long */
+  { static const int ids[8] = { MVS_JOIN_READY2_A, MVS_JOIN_READY2_B, MVS_TRYJOIN_READY2, MVS_DETACH_READY2, MVS_UNCOND_SIGNAL, MVS_MINIT, 0, 0 };
+    unsigned k = b2 & 31;
+    e->burst_id = 0; memcpy(e->burst_ids, ids, sizeof ids);
+    e->burst_len = k < 24 ? 0 : k < 28 ? 100 : k < 30 ? 5000 : k < 31 ? 70000 : 1100000; }
+  mt_hash_u((uint64_t)e->W | ((uint64_t)e->tail_preempt << 8) | ((uint64_t)e->mode << 20) | ((uint64_t)e->burst_len << 24));
 }
 
 static mv_config g_cfg;
@@ -58,9 +63,9 @@ void mt_lib_start(mt_case * c, mt_engine_cfg * e, size_t def_stack) {
   g_cfg.tail_preempt = e->tail_preempt;
   g_cfg.step_budget = c->tier ? 20000000 : 5000000;
   g_cfg.noise_level = 40;
-  g_cfg.burst_id = e->burst_id; g_cfg.burst_len = e->burst_len;
+  g_cfg.burst_id = e->burst_id; g_cfg.burst_len = e->burst_len; memcpy(g_cfg.burst_ids, e->burst_ids, sizeof g_cfg.burst_ids);
   if (&myth_verif_qop_fn && e->mode == MV_CONTROLLED) myth_verif_qop_fn = qop_check;
-  if (e->burst_len) mt_desc("engine: spin loop %d polls %ld times in place before the token moves on\n", e->burst_id, e->burst_len);
+  if (e->burst_len) mt_desc("engine: status-polling loops poll %ld times in place before the token moves on\n", e->burst_len);
   mv_set_quiescent_fn(mt_all_queues_empty);
   mt_desc("engine: W=%d mode=%s tail_preempt=%d/256 sched_bytes=%zu seed=%u\n", e->W,
           e->mode == MV_NOISE ? "noise" : "controlled", e->tail_preempt, c->sched_len, c->seed);
